@@ -237,50 +237,96 @@ package kvql
 //@   requires[C03] asc: forall j Int :: 0 <= j && j + 1 < len(chooseIdxes) ==> chooseIdxes[j] < chooseIdxes[j + 1]
 //@   assigns mapof(c.FieldChunkCaches)
 //
+// Exact result of one Batch call of a scan: chooseIdxes[j] is the offset (from the cursor position
+// at entry) of the j-th returned pair; every returned pair is the stored pair at that position
+// and passes the filter, every position in between fails it, and a batch shorter than
+// PlanBatchSize means the cursor is exhausted.
+//@ define gapLo(idx []int, j Int) Int = ite(j == 0, 0, idx[j - 1] + 1)
 //@ func (p *FullScanPlan) Batch(ctx *ExecuteCtx) (ret []KVPair, err error)
-//@   props C03
+//@   props C01 C03 C13
+//@   ghost j Int
+//@   ghost m Int
 //@   requires p != nil && wfFilter(p.Filter) && wfCur(p.iter) && !failed && ctx != nil && PlanBatchSize > 0
 //@   assigns cpos(p.iter), nops, failed, lastErr, ctx.Hit, mapof(ctx.FieldCaches), mapof(ctx.FieldChunkKeyCaches), mapof(ctx.FieldChunkCaches)
+//@   ensures[C01, C03] pos: err == nil ==> wfCur(p.iter) && old(cpos(p.iter)) <= cpos(p.iter) && len(local(chooseIdxes)) == len(ret) && ascIdx(local(chooseIdxes), cpos(p.iter) - old(cpos(p.iter)))
+//@   ensures[C01, C03] rows: err == nil && 0 <= j && j < len(ret) ==> val(ret[j].Key) == ckey(p.iter, old(cpos(p.iter)) + local(chooseIdxes)[j]) && val(ret[j].Value) == cval(p.iter, old(cpos(p.iter)) + local(chooseIdxes)[j]) && passes(p.Filter, val(ret[j].Key), val(ret[j].Value))
+//@   ensures[C01, C03] gaps: err == nil && 0 <= j && j < len(ret) && gapLo(local(chooseIdxes), j) <= m && m < local(chooseIdxes)[j] ==> !passes(p.Filter, ckey(p.iter, old(cpos(p.iter)) + m), cval(p.iter, old(cpos(p.iter)) + m))
+//@   ensures[C01, C03] tail: err == nil && gapLo(local(chooseIdxes), len(ret)) <= m && m < cpos(p.iter) - old(cpos(p.iter)) ==> !passes(p.Filter, ckey(p.iter, old(cpos(p.iter)) + m), cval(p.iter, old(cpos(p.iter)) + m))
+//@   ensures[C01, C03] end: err == nil && len(ret) < PlanBatchSize ==> cpos(p.iter) == clen(p.iter)
+//@   ensures[C13] readonly: nmut == old(nmut)
+//@   ensures[C13] surfaced: (failed ==> err == lastErr) && (err == nil ==> !failed)
 //@   loop 0
+//@     invariant[C13] ro: nmut == old(nmut)
 //@     invariant wfCur(p.iter) && !failed && count >= 0 && len(ret) == count && len(chooseIdxes) == count && bidx >= 0 && fresh(ret) && fresh(chooseIdxes) && fresh(filterBatch) && ascIdx(chooseIdxes, bidx)
+//@     invariant[C01, C03] at: cpos(p.iter) == old(cpos(p.iter)) + bidx && (finish ==> count >= PlanBatchSize || cpos(p.iter) == clen(p.iter)) && ptr(filterBatch) != ptr(ret)
+//@     invariant[C01, C03] rows: 0 <= j && j < count ==> val(ret[j].Key) == ckey(p.iter, old(cpos(p.iter)) + chooseIdxes[j]) && val(ret[j].Value) == cval(p.iter, old(cpos(p.iter)) + chooseIdxes[j]) && passes(p.Filter, val(ret[j].Key), val(ret[j].Value))
+//@     invariant[C01, C03] gaps: 0 <= j && j < count && gapLo(chooseIdxes, j) <= m && m < chooseIdxes[j] ==> !passes(p.Filter, ckey(p.iter, old(cpos(p.iter)) + m), cval(p.iter, old(cpos(p.iter)) + m))
+//@     invariant[C01, C03] tail: gapLo(chooseIdxes, count) <= m && m < bidx ==> !passes(p.Filter, ckey(p.iter, old(cpos(p.iter)) + m), cval(p.iter, old(cpos(p.iter)) + m))
 //@   loop 1
+//@     invariant[C13] ro: nmut == old(nmut)
 //@     invariant wfCur(p.iter) && !failed && 0 <= i && i <= PlanBatchSize && len(filterBatch) <= i && fresh(filterBatch)
 //@     invariant count >= 0 && len(ret) == count && len(chooseIdxes) == count && bidx >= 0 && fresh(ret) && fresh(chooseIdxes) && ascIdx(chooseIdxes, bidx)
+//@     invariant[C01, C03] at: cpos(p.iter) == old(cpos(p.iter)) + bidx + len(filterBatch) && (finish ==> count >= PlanBatchSize || cpos(p.iter) == clen(p.iter)) && ptr(filterBatch) != ptr(ret)
+//@     invariant[C01, C03] fetched: forall t Int :: 0 <= t && t < len(filterBatch) ==> val(filterBatch[t].Key) == ckey(p.iter, old(cpos(p.iter)) + bidx + t) && val(filterBatch[t].Value) == cval(p.iter, old(cpos(p.iter)) + bidx + t)
+//@     invariant[C01, C03] rows: 0 <= j && j < count ==> val(ret[j].Key) == ckey(p.iter, old(cpos(p.iter)) + chooseIdxes[j]) && val(ret[j].Value) == cval(p.iter, old(cpos(p.iter)) + chooseIdxes[j]) && passes(p.Filter, val(ret[j].Key), val(ret[j].Value))
+//@     invariant[C01, C03] gaps: 0 <= j && j < count && gapLo(chooseIdxes, j) <= m && m < chooseIdxes[j] ==> !passes(p.Filter, ckey(p.iter, old(cpos(p.iter)) + m), cval(p.iter, old(cpos(p.iter)) + m))
+//@     invariant[C01, C03] tail: gapLo(chooseIdxes, count) <= m && m < bidx ==> !passes(p.Filter, ckey(p.iter, old(cpos(p.iter)) + m), cval(p.iter, old(cpos(p.iter)) + m))
 //@   loop 2
+//@     invariant[C13] ro: nmut == old(nmut)
 //@     invariant count >= 0 && len(ret) == count && len(chooseIdxes) == count && bidx >= 0 && fresh(ret) && fresh(chooseIdxes) && ascIdx(chooseIdxes, bidx) && len(matchs) == len(filterBatch)
+//@     invariant[C01, C03] at: cpos(p.iter) == old(cpos(p.iter)) + bidx + len(filterBatch) - (rangeindex + 1) && (finish ==> count >= PlanBatchSize || cpos(p.iter) == clen(p.iter)) && ptr(filterBatch) != ptr(ret) && wfCur(p.iter)
+//@     invariant[C01, C03] fetched: forall t Int :: 0 <= t && t < len(filterBatch) ==> val(filterBatch[t].Key) == ckey(p.iter, cpos(p.iter) - len(filterBatch) + t) && val(filterBatch[t].Value) == cval(p.iter, cpos(p.iter) - len(filterBatch) + t) && matchs[t] == passes(p.Filter, val(filterBatch[t].Key), val(filterBatch[t].Value))
+//@     invariant[C01, C03] rows: 0 <= j && j < count ==> val(ret[j].Key) == ckey(p.iter, old(cpos(p.iter)) + chooseIdxes[j]) && val(ret[j].Value) == cval(p.iter, old(cpos(p.iter)) + chooseIdxes[j]) && passes(p.Filter, val(ret[j].Key), val(ret[j].Value))
+//@     invariant[C01, C03] gaps: 0 <= j && j < count && gapLo(chooseIdxes, j) <= m && m < chooseIdxes[j] ==> !passes(p.Filter, ckey(p.iter, old(cpos(p.iter)) + m), cval(p.iter, old(cpos(p.iter)) + m))
+//@     invariant[C01, C03] tail: gapLo(chooseIdxes, count) <= m && m < bidx ==> !passes(p.Filter, ckey(p.iter, old(cpos(p.iter)) + m), cval(p.iter, old(cpos(p.iter)) + m))
 //
 //@ func (p *PrefixScanPlan) Batch(ctx *ExecuteCtx) (ret []KVPair, err error)
-//@   props C03
+//@   props C03 C13
 //@   requires p != nil && wfFilter(p.Filter) && wfCur(p.iter) && !failed && ctx != nil && PlanBatchSize > 0
 //@   assigns cpos(p.iter), nops, failed, lastErr, ctx.Hit, mapof(ctx.FieldCaches), mapof(ctx.FieldChunkKeyCaches), mapof(ctx.FieldChunkCaches)
+//@   ensures[C13] readonly: nmut == old(nmut)
+//@   ensures[C13] surfaced: (failed ==> err == lastErr) && (err == nil ==> !failed)
 //@   loop 0
+//@     invariant[C13] ro: nmut == old(nmut)
 //@     invariant wfCur(p.iter) && !failed && count >= 0 && len(ret) == count && len(chooseIdxes) == count && bidx >= 0 && fresh(ret) && fresh(chooseIdxes) && fresh(filterBatch) && ascIdx(chooseIdxes, bidx)
 //@   loop 1
+//@     invariant[C13] ro: nmut == old(nmut)
 //@     invariant wfCur(p.iter) && !failed && 0 <= i && i <= PlanBatchSize && len(filterBatch) <= i && fresh(filterBatch)
 //@     invariant count >= 0 && len(ret) == count && len(chooseIdxes) == count && bidx >= 0 && fresh(ret) && fresh(chooseIdxes) && ascIdx(chooseIdxes, bidx)
 //@   loop 2
+//@     invariant[C13] ro: nmut == old(nmut)
 //@     invariant count >= 0 && len(ret) == count && len(chooseIdxes) == count && bidx >= 0 && fresh(ret) && fresh(chooseIdxes) && ascIdx(chooseIdxes, bidx) && len(matchs) == len(filterBatch)
 //
 //@ func (p *RangeScanPlan) Batch(ctx *ExecuteCtx) (ret []KVPair, err error)
-//@   props C03
+//@   props C03 C13
 //@   requires p != nil && wfFilter(p.Filter) && wfCur(p.iter) && !failed && ctx != nil && PlanBatchSize > 0
 //@   assigns cpos(p.iter), nops, failed, lastErr, ctx.Hit, mapof(ctx.FieldCaches), mapof(ctx.FieldChunkKeyCaches), mapof(ctx.FieldChunkCaches)
+//@   ensures[C13] readonly: nmut == old(nmut)
+//@   ensures[C13] surfaced: (failed ==> err == lastErr) && (err == nil ==> !failed)
 //@   loop 0
+//@     invariant[C13] ro: nmut == old(nmut)
 //@     invariant wfCur(p.iter) && !failed && count >= 0 && len(ret) == count && len(chooseIdxes) == count && bidx >= 0 && fresh(ret) && fresh(chooseIdxes) && fresh(filterBatch) && ascIdx(chooseIdxes, bidx)
 //@   loop 1
+//@     invariant[C13] ro: nmut == old(nmut)
 //@     invariant wfCur(p.iter) && !failed && 0 <= i && i <= PlanBatchSize && len(filterBatch) <= i && fresh(filterBatch)
 //@     invariant count >= 0 && len(ret) == count && len(chooseIdxes) == count && bidx >= 0 && fresh(ret) && fresh(chooseIdxes) && ascIdx(chooseIdxes, bidx)
 //@   loop 2
+//@     invariant[C13] ro: nmut == old(nmut)
 //@     invariant count >= 0 && len(ret) == count && len(chooseIdxes) == count && bidx >= 0 && fresh(ret) && fresh(chooseIdxes) && ascIdx(chooseIdxes, bidx) && len(matchs) == len(filterBatch)
 //
 //@ func (p *MultiGetPlan) Batch(ctx *ExecuteCtx) (ret []KVPair, err error)
-//@   props C03
+//@   props C03 C13
 //@   requires wfMGet(p) && !failed && ctx != nil && PlanBatchSize > 0
 //@   assigns p.idx, nops, failed, lastErr, lastGet, ctx.Hit, mapof(ctx.FieldCaches), mapof(ctx.FieldChunkKeyCaches), mapof(ctx.FieldChunkCaches)
+//@   ensures[C13] readonly: nmut == old(nmut)
+//@   ensures[C13] surfaced: (failed ==> err == lastErr) && (err == nil ==> !failed)
 //@   loop 0
+//@     invariant[C13] ro: nmut == old(nmut)
 //@     invariant wfMGet(p) && !failed && count >= 0 && len(ret) == count && len(chooseIdxes) == count && bidx >= 0 && fresh(ret) && fresh(chooseIdxes) && fresh(filterBatch) && ascIdx(chooseIdxes, bidx)
 //@   loop 1
+//@     invariant[C13] ro: nmut == old(nmut)
 //@     invariant wfMGet(p) && !failed && 0 <= i && i <= PlanBatchSize && len(filterBatch) <= i && fresh(filterBatch)
 //@     invariant count >= 0 && len(ret) == count && len(chooseIdxes) == count && bidx >= 0 && fresh(ret) && fresh(chooseIdxes) && ascIdx(chooseIdxes, bidx)
 //@   loop 2
+//@     invariant[C13] ro: nmut == old(nmut)
 //@     invariant count >= 0 && len(ret) == count && len(chooseIdxes) == count && bidx >= 0 && fresh(ret) && fresh(chooseIdxes) && ascIdx(chooseIdxes, bidx) && len(matchs) == len(filterBatch)
